@@ -20,11 +20,17 @@ if [ $need = 1 ]; then
 	S=$(mktemp -d /var/tmp/vf-gen.XXXXXX)
 	trap 'rm -rf "$S"' EXIT
 	(cd "$REPO" && tar -c --exclude=.git --exclude='*.o' --exclude='*.a' --exclude=tests . ) | tar -x -C "$S"
-	(cd "$S" && ./configure >/dev/null 2>&1 && make -j8 -C lib/et >/dev/null 2>&1 && \
-		make -j8 -C lib/ext2fs ext2_err.h crc32c_table.h >/dev/null 2>&1; \
-		make -C lib/support prof_err.h >/dev/null 2>&1; \
-		make -C lib dirpaths.h >/dev/null 2>&1; make -C lib/blkid blkid_types.h >/dev/null 2>&1; \
-		make -C lib/uuid uuid_types.h >/dev/null 2>&1; true)
+	(
+		cd "$S" || exit 1
+		./configure >/dev/null 2>&1 || exit 1
+		make -j8 -C lib/et >/dev/null 2>&1
+		make -j8 -C lib/ext2fs ext2_err.h crc32c_table.h >/dev/null 2>&1
+		make -C lib/support prof_err.h >/dev/null 2>&1
+		make -C lib dirpaths.h >/dev/null 2>&1
+		make -C lib/blkid blkid_types.h >/dev/null 2>&1
+		make -C lib/uuid uuid_types.h >/dev/null 2>&1
+		exit 0
+	) || { echo "configure failed in scratch copy"; exit 1; }
 	rm -rf .gen; mkdir -p .gen
 	V=$(pwd)
 	(cd "$S" && find . -name '*.h' -newer configure -print | tar -c -T - | tar -x -C "$V/.gen")
